@@ -56,7 +56,7 @@ func init() {
 			secs = append(secs, seqSections("odd-bytes-", odd, lk+1, run)...)
 			secs = append(secs, seqSections("moredir-", append(append([]string{}, MoreDirectiveAtoms...), "\\", "(", " ", "x"), 2, run)...)
 			// comments: everything short of the terminator is inside, whatever near-misses of the terminator it holds
-			cmt := []string{"{{--", "--}}", "-", "}", "--", "{", "x", " ", "é", "\n"}
+			cmt := []string{"{{--", "--}}", "-", "}", "--", "{", "x", " ", "é", "\n", "\r"}
 			secs = append(secs, seqSections("comment-", cmt, lk+3, run)...)
 			// long tokens: names, numbers, strings, comments, white space inside code, directive arguments of 255 .. 1 Mi bytes
 			tokLens := []int{255, 256, 257, 4095, 4096, 4097, 65535, 65536, 65537, 1 << 20}
